@@ -261,6 +261,93 @@ pub fn check(depth: u8, h: u64, delta: u8, use_free_fns: bool, part: &mut Part) 
   None
 }
 
+
+/// Direct, exhaustive check of the two public direction helpers of lib.rs the structured variant is
+/// built on: for every cell on the border of a base cell (depths 0..=max_d) and every neighbour
+/// lying in another base cell, the direction of the cell seen from that neighbour (reference: the
+/// vertex-sharing label of R2) -- and the documented panics of `direction_from_neighbour`.
+fn mw_index(m: &cdshealpix::compass_point::MainWind) -> usize {
+  (0..9u8).find(|&k| cdshealpix::compass_point::MainWind::from_index(k) == *m).unwrap() as usize
+}
+
+fn check_direction_helpers(max_d: u8, part: &mut Part) {
+  use cdshealpix::compass_point::MainWind;
+  for d in 0..=max_d {
+    let n = nside(d) as u32;
+    for h in all_cells(d) {
+      let (b, i, j) = decode(d, h);
+      if !(i == 0 || j == 0 || i == n - 1 || j == n - 1) {
+        continue;
+      }
+      // position of the cell in the border of its base cell
+      let inner: usize = if d == 0 {
+        4
+      } else if i == 0 && j == 0 {
+        0
+      } else if i == n - 1 && j == 0 {
+        2
+      } else if i == n - 1 && j == n - 1 {
+        8
+      } else if i == 0 && j == n - 1 {
+        6
+      } else if j == 0 {
+        1
+      } else if i == 0 {
+        3
+      } else if i == n - 1 {
+        5
+      } else {
+        7
+      };
+      let nbs = ref_neighbours(d, h);
+      for &(dir, nb) in &nbs {
+        let (b2, _, _) = decode(d, nb);
+        if b2 == b {
+          continue;
+        }
+        let back = ref_neighbours(d, nb).into_iter().find(|e| e.1 == h).expect("oracle: adjacency not symmetric").0;
+        let case = json!({"depth": d, "hash": h.to_string(), "delta_depth": 0, "helper": true, "neighbour_direction": DIR_NAMES[dir]});
+        part.stratum("direction-helpers", 1, 2);
+        part.validated += 1;
+        if d == 0 {
+          match guarded(move || cdshealpix::direction_from_neighbour(b, &MainWind::from_index(dir as u8))) {
+            Ok(m) => {
+              part.outcome(hash64(&[b as u64, dir as u64, mw_index(&m) as u64]));
+              if mw_index(&m) != back {
+                part.viol(Viol { api: "direction_from_neighbour".into(), kind: "wrong-direction".into(), case, expected: DIR_NAMES[back].into(), actual: format!("{:?}", m) });
+              }
+            }
+            Err(m) => part.viol(Viol { api: "direction_from_neighbour".into(), kind: "panic-in-domain".into(), case, expected: DIR_NAMES[back].into(), actual: m }),
+          }
+        } else {
+          match guarded(move || cdshealpix::edge_cell_direction_from_neighbour(b, &MainWind::from_index(inner as u8), &MainWind::from_index(dir as u8))) {
+            Ok(m) => {
+              part.outcome(hash64(&[b as u64, inner as u64, dir as u64, mw_index(&m) as u64]));
+              if mw_index(&m) != back {
+                part.viol(Viol { api: "edge_cell_direction_from_neighbour".into(), kind: "wrong-direction".into(), case, expected: format!("{} (cell at the {} of base cell {})", DIR_NAMES[back], DIR_NAMES[inner], b), actual: format!("{:?}", m) });
+              }
+            }
+            Err(m) => part.viol(Viol { api: "edge_cell_direction_from_neighbour".into(), kind: "panic-in-domain".into(), case, expected: DIR_NAMES[back].into(), actual: m }),
+          }
+        }
+      }
+      if d == 0 {
+        // documented panics: no neighbour in that direction
+        for dir in 0..9usize {
+          if nbs.iter().any(|e| e.0 == dir) {
+            continue;
+          }
+          part.stratum("direction-helpers", 1, 1);
+          if let Ok(m) = guarded(move || cdshealpix::direction_from_neighbour(b, &MainWind::from_index(dir as u8))) {
+            let case = json!({"depth": 0, "hash": h.to_string(), "delta_depth": 0, "helper": true, "neighbour_direction": DIR_NAMES[dir]});
+            part.viol(Viol { api: "direction_from_neighbour".into(), kind: "no-neighbour-accepted".into(), case, expected: "panic (documented): the base cell has no neighbour in that direction".into(), actual: format!("{:?}", m) });
+          }
+        }
+      }
+    }
+  }
+}
+
 pub fn run(ctx: &Ctx) -> i32 {
   let quick = ctx.quick();
   let d_exh: u8 = if quick { 3 } else { 6 };
@@ -345,6 +432,7 @@ pub fn run(ctx: &Ctx) -> i32 {
     }
     part
   });
+  check_direction_helpers(if quick { 3 } else { 6 }, &mut total);
   // out-of-range hash on the checked entry points
   for (d, h) in [0u8, 3, 12, 28].iter().flat_map(|&d| out_of_range_hashes(d).into_iter().map(move |h| (d, h))) {
     total.stratum("out-of-range", 1, 3);
@@ -375,6 +463,10 @@ pub fn replay(case: &Value) -> Option<Viol> {
   let d = case["depth"].as_u64().unwrap() as u8;
   let h = u64_from_json(&case["hash"]);
   let delta = case["delta_depth"].as_u64().unwrap() as u8;
+  if case.get("helper").is_some() {
+    check_direction_helpers(d, &mut part);
+    return part.viols.into_iter().next();
+  }
   if h >= n_hash(d) {
     return if guarded(|| nested::get_or_create(d).external_edge(h, delta)).is_ok() { Some(Viol { api: "external_edge".into(), kind: "out-of-range-accepted".into(), case: case.clone(), expected: "panic".into(), actual: "returned".into() }) } else { None };
   }
